@@ -275,6 +275,7 @@ void prop_gen(Ctx &c) {
 			return c; });
 	});
 	rc::check("C08 sampled", [&]() {
+		if (c.shrink_exhausted()) return;
 		Case cs = *genCase;
 		if (cs.op == "add") {
 			if (!in_range(to_ms(cs.a) + cs.delta)) RC_DISCARD("out of range");
